@@ -28,7 +28,7 @@ EXPLANATION = (
     "edits go through the boundary-aware helper only (no str.replace on equations in _update_equation; the rule table keys "
     "replace/remove/append/prepend are each handled).  R5 the key under which a definition is stored in the dump dictionary is re-tested "
     "until it is unused or holds an equal definition (a while loop, not a single if).  R6 from_yaml derives through update_template of "
-    "the loaded base and instantiates known classes with exactly the loaded dictionary.  R4 also: no replace/remove edit can run after an append/prepend edit of the same update (added text is not rewritten).  R10 equations given under `add` reach the derived template and are not iterated into the edit helper.  R11 what dict_from_yaml hands out shares no container with file content retained beyond the call (effect origins of its return value).  NOT decided: dynamics of round-tripped models, "
+    "the loaded base and instantiates known classes with exactly the loaded dictionary.  R4 also: no replace/remove edit can run after an append/prepend edit of the same update (added text is not rewritten).  R10 equations given under `add` reach the derived template and are not iterated into the edit helper.  R11 what dict_from_yaml hands out shares no container with file content retained beyond the call (effect origins of its return value).  R12 no memo of the dumper is keyed by attributes (name, path, type) of the template object its entry is computed from.  NOT decided: dynamics of round-tripped models, "
     "relative path resolution on a file system, ruamel.yaml behaviour; a dumped operator variant gets a new name (op_num1) - a format "
     "limitation that is outside these rules."
 )
@@ -654,6 +654,22 @@ def r11_loaded_definition_is_private(ctx, rid):
                    label="loaded definition shares nothing with retained file content")
 
 
+def r12_dump_memo_identifies_the_object(ctx, rid):
+    """The dumper (frontend/dict.py) may write a template once and let later occurrences refer to it only if "the same template"
+    means the same OBJECT (or equal content): per-node overrides are made by deep-copying a node template, so several nodes hold
+    templates with the same name and path but different values - a memo keyed by name/path/type writes the first and drops the rest."""
+    from ._pitfall_lints import attribute_keyed_memo
+    funcs = [f for f in ctx.repo.functions.values() if f.module.rel == FD]
+    if len(funcs) < 4:
+        raise AnalysisError(f"{rid}: only {len(funcs)} functions found in {FD}")
+    hits = attribute_keyed_memo(ctx, funcs)
+    for f, st, why in hits:
+        ctx.violation(rid, f, st, why, label="dump memo identifies the object")
+    if not hits:
+        ctx.ok(rid, None, None, f"no memo of the dumper is keyed by attributes of the template it stands for ({len(funcs)} functions)",
+               construct=f"{FD}::dump memo identifies the object", loc=f"{FD}:1", nontrivial=False)
+
+
 def _anc15(n):
     from engine.srcmodel import parent
     p = parent(n)
@@ -674,4 +690,5 @@ RULES = [
     ("C15-R9", r9_cached_defaults, 2),
     ("C15-R10", r10_added_equations_verbatim, 2),
     ("C15-R11", r11_loaded_definition_is_private, 1),
+    ("C15-R12", r12_dump_memo_identifies_the_object, 1),
 ]
